@@ -5,7 +5,8 @@ import json, os
 TECH = "bounded symbolic execution of the real go/ssa (own engine gosym) + SMT (cvc5 1.0.3, z3 5.1); sat models replayed on the real build"
 COMMON_NOTE = ("Trusted base: the gosym SSA interpreter (validated on every run: repository fixtures and solver models of sampled paths are run through "
   "engine and real build and must agree), the SMT solvers, contracts of stubbed libraries (encoding/json token stream and jstr serialiser, sha256 and regexp as "
-  "uninterpreted symbols in verdict queries). Holds only within the stated bounds; unknown/timeouts are reported as inconclusive, never as success. ")
+  "uninterpreted symbols in verdict queries). Pure standard-library helpers without a dedicated model (strings.Cut, strconv.Atoi, hex.DecodeString, ...) are uninterpreted functions of their arguments "
+  "(over-approximation; a counterexample is refined against the native function and replayed before it is reported). Holds only within the stated bounds; unknown/timeouts are reported as inconclusive, never as success. ")
 
 CHECKS = {
  "C01": dict(
@@ -13,7 +14,7 @@ CHECKS = {
         "symbolically through RedactMongoLog+MarshalOrdered with symbolic literals, field names, namespace, flags and replacement text; for each feasible path and "
         "each sensitive hole the solver shows that no output segment depending on the literal can contain it (unsat), numbers/IP likewise under their flags. "
         "Bounded model checking of the real code: all literal contents and all flag combinations within the template bounds, not a sample.",
-   note="Bounds: quick 325 / thorough 1283 templates, nesting <= 3 operators below the command key, arrays <= 2 elements, <= 5 secrets per line, field names outside the "
+   note="Bounds: quick 325 / thorough 1283 templates, nesting <= 3 operators below the command key, arrays <= 2 elements plus wide arrays of 5 / 17 / 33 elements (numbers with two string literals; quick: 17) in $in, inserted documents and $expr, <= 5 secrets per line, field names outside the "
         "operator vocabulary (class G). Assumes a secret is not a substring of text that does not depend on it; secrets non-empty, not starting with '$'. Not covered here: "
         "encrypt mode (see C10), selective mode (C14), operators absent from the grammar, the CLI flag wiring (C18).",
    ref="6/C01"),
@@ -48,18 +49,21 @@ CHECKS = {
  "C13": dict(
    text="HashName is executed on a symbolic name and replacement text; the solver shows equality with the documented form for all names within the split bounds, independence from the side table and call order, "
         "'$' prefix irrelevance, and that equal pseudonyms of dot-free names force equal 8-byte digests (injectivity relative to the hash, all 8 bytes used).",
-   note="Bounds: <= 2 dots, <= 2 leading '$'. Outside: collision-freeness of truncated SHA-256 itself; cross-process stability rests on HashName reaching no clock/random/environment call (such a call aborts the path as unmodelled => inconclusive).",
+   note="Bounds: <= 2 dots, <= 2 leading '$'; every other option of the run (value switches, namespace / field-name mode, encrypt mode with an arbitrary key) is symbolic, so a dependence of the pseudonym on any of them is a counterexample; hash.Hash / hmac digests are uninterpreted functions of (algorithm, key, message). Outside: collision-freeness of truncated SHA-256 itself; cross-process stability rests on HashName reaching no clock/random/environment call (such a call aborts the path as unmodelled => inconclusive).",
    ref="6/C13"),
  "C14": dict(
    text="Selective mode with a concrete regexp from a family; field names are symbolic and 'name matches R' is an uninterpreted predicate, so both outcomes are explored for every name on the path. "
         "For each literal: some key on the path matches => class placeholder; none matches => leaf equal to input.",
-   note="Bounds: non-search corpus templates x 3 regexps (quick: rotating one per template). No obligation below dotted keys or next to a '$field' operand (not settled by the property text). Atlas Search stages excluded.",
+   note="Bounds: non-search corpus templates x 3 regexps (quick: rotating one per template). No obligation below dotted keys or next to a '$field' operand (not settled by the property text). Atlas Search stages excluded. History independence: one two-line job (dotted key / nested document with colliding joined paths) compares each line alone in a fresh process state with both lines in one run, both orders (H_c06_local, selective mode).",
    ref="6/C14"),
  "C15": dict(
    text="Field-name mode with a symbolic configured prefix (solver explores equal / prefix / unrelated): when active every user key in the positions the property names equals the documented pseudonym, no such name "
-        "remains in any output segment, sibling counts/order are kept and values equal the flag-off run; when inactive the whole output equals the flag-off run.",
+        "remains in any output segment, sibling counts/order are kept and values equal the flag-off run; when inactive the whole output equals the flag-off run. "
+        "Plan summary: lines whose planSummary names the filter's fields (IXSCAN single / compound / OR / dotted / with _id / EXPRESS_IXSCAN, COLLSCAN, IDHACK) are run with the names as symbolic strings over [A-Za-z0-9_]+ of any length; "
+        "the real regexp scan (leftmost-first matcher over constants and class-constrained atoms), Split / TrimSpace / Replace run on the rope and the solver shows the emitted summary equals the input with each key replaced by the pseudonym the same name gets in the filter.",
    note="Bounds: find/update/delete/insert/findAndModify/aggregate templates of the corpus, single-component names. Sibling-count obligations whose only models need a SHA-256 prefix collision are reported as not reproduced (collision-freeness is outside). "
-        "NOT covered: the plan-summary rewriting clause (byte-level regexp scanning; not encoded yet).",
+        "A spread of the corpus and all plan-summary jobs also run with --redactNamespaces symbolic (both flags together). Plan-summary bounds: index-key names are non-empty words over [A-Za-z0-9_]; a regexp step whose outcome would depend on a name's content aborts the path as inconclusive; "
+        "with a text-wide ReplaceAll in the code, occurrences of a name inside constants / other names / pseudonyms are found by solver-decided case splits (at most one occurrence per foreign stretch explored). COUNT_SCAN / DISTINCT_SCAN summaries are not in the corpus.",
    ref="6/C15"),
  "C19": dict(
    text="The emitted rope of the first pass is re-tokenised (decoder contract) and fed through the real redactor again with the same symbolic flags; the solver shows second output == first output on every path.",
@@ -68,8 +72,9 @@ CHECKS = {
 
  "C06": dict(
    text="processMongoLogStream / ProcessMongoLogFile / ProcessMongoLogFileFromReader are executed on a sequence of k lines whose kinds (symbolic command line, other-component line, blank, whitespace, non-JSON) are chosen by the solver; the write events must equal, in order, what each line yields on its own; "
-        "all four channels and bar nil/present are compared; the pseudonym side table starts with an arbitrary entry and the option globals are shown unchanged (inductive step for logs of any length).",
-   note="Bounds: k = 2 (thorough 3), 3 line triples. bufio.Scanner / gzip are contract stubs (line list; CRLF and final newline are ScanLines' documented behaviour). Real gzip, OS pipes/files are outside.",
+        "all four channels and bar nil/present are compared; the pseudonym side table starts with an arbitrary entry and the option globals are shown unchanged (inductive step for logs of any length). "
+        "Hidden state: pairs of lines are redacted alone, each from a freshly initialised program state (all package-level variables re-initialised), and then together in both orders, in placeholder / field-name / selective mode; every line must come out as it does alone.",
+   note="Bounds: k = 2 (thorough 3), 3 line triples, 2 locality pairs (thorough 3). bufio.Scanner / gzip are contract stubs (line list; CRLF and final newline are ScanLines' documented behaviour; a .gz input may consist of two gzip members and Multistream(false) yields only the first). Real gzip, OS pipes/files are outside.",
    ref="6/C06"),
  "C07": dict(
    text="Every odd-shape template (unexpected value kinds under $date/$oid/$binary and under arbitrary keys colliding with the operator vocabulary, nulls, empty/nested arrays) is run through the stream loop in placeholder, field-name and selective mode; every implicit panic site "
@@ -82,7 +87,7 @@ CHECKS = {
    ref="6/C08"),
  "C09": dict(
    text="redactString in encrypt mode -> key file content as WriteKeyToFile stores it -> ReadKeyFromFile -> base64 decode -> Decrypt is executed with symbolic plaintext and key; the solver shows the result equals the plaintext. "
-        "The real encoding/base64 code is executed on symbolic bytes (lengths 0..6) and shown to round-trip. 'Never a wrong plaintext' is shown in the SIV sense: whatever Decrypt accepts (another key, arbitrary bytes) re-encrypts to the given ciphertext.",
+        "The same round trip is shown when the content is itself a ciphertext of an earlier run (value of a redacted line quoted again). The real encoding/base64 code is executed on symbolic bytes (lengths 0..6) and shown to round-trip. 'Never a wrong plaintext' is shown in the SIV sense: whatever Decrypt accepts (another key, arbitrary bytes) re-encrypts to the given ciphertext.",
    note="tink AEAD, keyset handle and protobuf are uninterpreted functions with Dec(Enc(m))=m, len(Enc)=len(m)+16, Dec-ok => Enc(Dec(c))=c. NOT decided: that a different key / altered ciphertext is *rejected* (authenticity of AES-SIV is a cryptographic claim). The cobra wiring of `decrypt` is not executed.",
    ref="6/C09"),
  "C10": dict(
